@@ -20,6 +20,21 @@ CHECKS = {
         technique="TLA+ symbolic register-file semantics (XOR algebra, NaN-boxing fmv.s, hard-wired zero) + simultaneous-assignment requirement; sequences emitted by the real pass for every small move graph executed and judged by TLC",
         text="Every move graph over 4 (thorough: 5) integer registers incl. zero as source, every graph over 3 (thorough: 4) float registers x both widths, each with every small free-register set, plus seeded mixed graphs (shuffled operand order, zero destinations, distinct SSA values per use) is lowered by the real riscv-lower-parallel-mov; TLC executes the emitted mv/fmv/xor sequence on a symbolic register file and checks that every destination holds its source's old value and no other register changed. Exhaustive for the stated bound.",
         note="Trusted: the instruction semantics in ParallelMov.tla; the extraction of the emitted ops. Four genuine defects of the unchanged tree are listed as open findings (keyed by root-cause class + registers TLC found wrong); a pass failure/crash is recorded as divergence, not violation."),
+    "C01": dict(
+        category="model_checking", design_ref="DESIGN.md §3.3, §4 C01",
+        technique="TLA+ abstract IR object graph (one pure operator per public mutator) explored by TLC breadth-first and by simulation; every explored history replayed on real objects; TLC evaluates the C01 predicate on pointer-walk projections taken after every call (also from traced real passes and random wider-API histories)",
+        text="TLC enumerates every history of <=2 (thorough: 3) mutator calls from two initial IRs over 28 action kinds plus random walks of depth 30-40; each history is replayed through the public API (Block/Region/Operation methods, Rewriter, PatternRewriter routes) and after every call both directions of every op/block list, parent pointers, use chains and indices are projected and judged by TLC against IRProj.tla; the same judge sees projections from seeded random histories over the wider API and from the repository's passes running on corpus modules under run-time mutator wrappers. End states are compared with the model (divergence only).",
+        note="Trusted: harness/project.py reads the private pointers faithfully; erased objects are those the harness saw erased; calls with false documented preconditions are not issued and a raising/hanging call ends its history. Bounds: universe of 7-9 ops, 4-6 blocks, 3 regions in the model; larger in random histories and traced passes."),
+    "C02": dict(
+        category="exploration", design_ref="DESIGN.md §3.3, §4 C02",
+        technique="TLA+ isomorphism + frame conditions (IRIso.tla, IRCloneCases.tla) evaluated by TLC on before/after projections of real clone calls",
+        text="Generated trees (multi-block CFGs, use-before-def, external operands, nested regions) living next to bystander IR are cloned through every entry point (Operation.clone, clone_without_regions, nested op, Region.clone, clone_into non-empty destinations at default and every index, ModulePass.apply_to_clone on corpus modules); TLC checks equivalence with internal references remapped and external ones identical, nothing shared, insertion index, and that source, bystanders and destination contents are unchanged, also after local edits on either side.",
+        note="Trusted: projection with attribute/type tokens (Python ==). Attribute objects are treated as immutable values."),
+    "C03": dict(
+        category="exploration", design_ref="DESIGN.md §3.3, §4 C03",
+        technique="TLA+ definition of structural equivalence (positional bijection of values and blocks, IRIso.tla) evaluated by TLC as reference; real is_structurally_equivalent compared on generated IR, clones and single-point mutants",
+        text="For generated trees, their clones and clones with one mutation of each kind (result/arg type, attribute added/removed/changed, property changed or moved to the attribute dictionary, operand rewired internally or to an outside value, successor, block order, op order, op name, extra op) the real check is asked in both directions on ops (detached and attached), regions and blocks; TLC evaluates the property's definition on the projection and every disagreement is a violation.",
+        note="Trusted: IRIso.tla is the property's relation; attribute/type equality is Python == via interned tokens; mutants are produced with the real API."),
 }
 
 NOT_APPLICABLE = {
